@@ -70,7 +70,7 @@ def is_public_entry(fn: FunctionInfo) -> bool:
     return fn.is_public
 
 
-def rule_purity(run: Run, prog: Program, focus_cache_only: bool = False) -> int:
+def rule_purity(run: Run, prog: Program, focus_cache_only: bool = False, only_entries: set | None = None, shared_only: bool = False) -> int:
     run.rule("E1.mem", "no public operation writes in place into ndarray memory that belongs to an argument (self included), a cached "
                        "attribute of an argument, a module constant / default-argument object, or a process-wide cache")
     run.rule("E1.attr", "no public operation rebinds a state attribute (array, index sets, is_dual, pdim, _line, _plane, ...) of an argument; "
@@ -115,6 +115,10 @@ def rule_purity(run: Run, prog: Program, focus_cache_only: bool = False) -> int:
             rule = {"mem": "E1.mem", "attr": "E1.attr", "cont": "E1.cont", "global": "E1.global"}[eff.kind]
             if focus_cache_only and not eff.path.startswith("C:"):
                 continue
+            if shared_only and not root.startswith(("G:", "C:")):
+                continue
+            if only_entries is not None and fn.short not in only_entries:
+                continue
             key = (rule, info.origin[3], info.origin[2], verdict)
             rec = bad.setdefault(key, {"entries": {}, "info": info, "eff": eff, "why": why})
             rec["entries"].setdefault(fn.short, (eff, info))
@@ -139,11 +143,23 @@ def rule_purity(run: Run, prog: Program, focus_cache_only: bool = False) -> int:
             flagged_sites[(ofn, ostmt)] = verdict
     # every other write construct is a discharged obligation
     n = 0
+    reach: set[str] = set()
+    if only_entries is not None:
+        from geolint.checks import get_cg
+
+        cg = get_cg(prog)
+        for f in prog.package_functions():
+            if f.short in only_entries:
+                for q in cg.reachable(f):
+                    if q in prog.functions:
+                        reach.add(prog.functions[q].short)
     for (fshort, stmt), rec in sorted(eng.sites.items()):
         n += 1
         if (fshort, stmt) in flagged_sites:
             continue
         if focus_cache_only:
+            continue
+        if only_entries is not None and fshort not in reach:
             continue
         kinds = "/".join(sorted(rec["kinds"]))
         tgt = "fresh local data" if not rec["paths"] else "protected roots only through sanctioned operations or private helpers whose public callers pass fresh data"
@@ -161,6 +177,8 @@ def describe_target(path: str, kind: str, attr: str) -> str:
     elif root.startswith("G:") and "#" in root:
         f, p = root[2:].split("#")
         base = f"the shared default-argument object `{p}` of {f.replace('geometer.', '')}{sel}"
+    elif root.startswith("G:") and root.endswith("@memo"):
+        base = f"the object that the memoised function {root[2:-5].replace('geometer.', '')} (lru_cache/cache) returns to every caller{sel}"
     elif root.startswith("G:"):
         base = f"the module constant `{root[2:].replace('geometer.', '')}`{sel}"
     else:
